@@ -2,7 +2,7 @@
 import json
 import random
 
-from .. import flow, oracles_sde as osde
+from .. import core, flow, oracles_sde as osde
 
 PROOFS = ['Tsv.Proofs.C17']
 TRUSTED = ["Lean 4.33 kernel + Mathlib", "tracer/emitter (validated each run: real solver.step vs trace, Lean Float vs trace)",
@@ -14,7 +14,7 @@ TRUSTED = ["Lean 4.33 kernel + Mathlib", "tracer/emitter (validated each run: re
 def run(rep, tier, seed):
     flow.run_gen(rep, {'Steps'}, seed, 10 if tier == 'quick' else 100)
     flow.run_proofs(rep, PROOFS, extra_scan=['Tsv.Gen.Steps'])
-    fails, st = osde.c17_search(random.Random(seed), 30 if tier == 'quick' else 600)
+    fails, st = core.safe(osde.c17_search, random.Random(seed), 30 if tier == 'quick' else 600)
     rep.ob('oracle:special-vs-general-on-real-sdeint', f"{st['evals']} runs", not fails, json.dumps(fails[:1])[:800])
     rep.cov['real_code_oracle'] = st
     rep.cov.update(evaluations=st['evals'], distinct_nontrivial=st['evals'],
